@@ -16,10 +16,12 @@ Proof.
   - rewrite IH. change (Nat.ltb (S i) (S (length t))) with (Nat.ltb i (length t)). reflexivity.
 Qed.
 
-Definition is_trans (x : ev) : bool := match x with ETrans _ _ _ _ _ => true | _ => false end.
+(* the events the invariants speak about: state writes and timeout firings *)
+Definition is_trans (x : ev) : bool := match x with ETrans _ _ _ _ _ => true | EFire _ _ _ _ _ => true | _ => false end.
 Definition ntasks (e : eng) := length (tasks e).
 Definition ext (e e' : eng) : Prop :=
-  (forall t, st e' t = st e t /\ t_err (tk e' t) = t_err (tk e t) /\ t_catch_done (tk e' t) = t_catch_done (tk e t)) /\
+  (forall t, st e' t = st e t /\ t_err (tk e' t) = t_err (tk e t) /\ t_catch_done (tk e' t) = t_catch_done (tk e t) /\
+             t_tmo_done (tk e' t) = t_tmo_done (tk e t) /\ t_start (tk e' t) = t_start (tk e t)) /\
   (exists l, trace e' = trace e ++ l /\ forallb (fun x => negb (is_trans x)) l = true) /\
   ntasks e <= ntasks e' /\
   (forall t, t < ntasks e -> t_prev (tk e' t) = t_prev (tk e t)) /\
@@ -33,7 +35,7 @@ Qed.
 Lemma ext_trans e1 e2 e3 : ext e1 e2 -> ext e2 e3 -> ext e1 e3.
 Proof.
   intros (H1 & (l1 & T1 & F1) & L1 & K1 & N1 & Q1) (H2 & (l2 & T2 & F2) & L2 & K2 & N2 & Q2). split; [|split; [|split; [|split; [|split]]]].
-  - intros t. destruct (H1 t) as (a & b & c), (H2 t) as (a' & b' & c'). repeat split; congruence.
+  - intros t. destruct (H1 t) as (a & b & c & d & f), (H2 t) as (a' & b' & c' & d' & f'). repeat split; congruence.
   - exists (l1 ++ l2). rewrite T2, T1, app_assoc. split; auto. rewrite forallb_app, F1, F2. reflexivity.
   - lia.
   - intros t Ht. rewrite K2 by lia. now apply K1.
@@ -63,7 +65,8 @@ Qed.
 Lemma tk_tmod e i f t : tk (tmod e i f) t = if Nat.eqb t i && Nat.ltb i (length (tasks e)) then f (tk e i) else tk e t.
 Proof. unfold tk, tmod; simpl. apply upd_nth. Qed.
 Definition keeps (f : task -> task) : Prop :=
-  forall x, t_state (f x) = t_state x /\ t_err (f x) = t_err x /\ t_catch_done (f x) = t_catch_done x /\ t_prev (f x) = t_prev x.
+  forall x, t_state (f x) = t_state x /\ t_err (f x) = t_err x /\ t_catch_done (f x) = t_catch_done x /\ t_prev (f x) = t_prev x /\
+            t_tmo_done (f x) = t_tmo_done x /\ t_start (f x) = t_start x.
 Lemma ntasks_tmod e i f : ntasks (tmod e i f) = ntasks e.
 Proof. unfold ntasks, tmod; simpl. apply upd_length. Qed.
 Lemma ext_tmod e i f : keeps f -> ext e (tmod e i f).
@@ -71,7 +74,7 @@ Proof.
   intros K. split; [|split; [|split; [|split; [|split]]]].
   - intros t. unfold st. rewrite tk_tmod.
     destruct (Nat.eqb_spec t i); simpl; [subst|repeat split; reflexivity].
-    destruct (Nat.ltb i (length (tasks e))); [|repeat split; reflexivity]. destruct (K (tk e i)) as (a & b & c & d). auto.
+    destruct (Nat.ltb i (length (tasks e))); [|repeat split; reflexivity]. destruct (K (tk e i)) as (a & b & c & d & g & h). auto.
   - exists []. simpl. now rewrite app_nil_r.
   - rewrite ntasks_tmod; lia.
   - intros t Ht. rewrite tk_tmod. destruct (Nat.eqb_spec t i); simpl; [subst|reflexivity].
@@ -81,14 +84,13 @@ Proof.
 Qed.
 Lemma ext_nmod e n f : ext e (nmod e n f). Proof. apply ext_with_nodes. Qed.
 
-Lemma ext_set_catches e i cs : ext e (set_catches e i cs). Proof. apply ext_tmod; intros x; auto. Qed.
-Lemma ext_set_timeouts e i x : ext e (set_timeouts e i x). Proof. apply ext_tmod; intros y; auto. Qed.
-Lemma ext_add_tmo_done e i x : ext e (add_tmo_done e i x). Proof. apply ext_tmod; intros y; auto. Qed.
-Lemma ext_set_evproc e i : ext e (set_evproc e i). Proof. apply ext_tmod; intros y; auto. Qed.
-Lemma ext_add_hooks e i h : ext e (add_hooks e i h). Proof. apply ext_tmod; intros y; auto. Qed.
-Lemma ext_set_silent e i b : ext e (set_silent e i b). Proof. apply ext_tmod; intros y; auto. Qed.
-Lemma ext_set_data e i v : ext e (set_data e i v). Proof. apply ext_tmod; intros y; auto. Qed.
-Lemma ext_set_exposed e i v : ext e (set_exposed e i v). Proof. apply ext_tmod; intros y; auto. Qed.
+Lemma ext_set_catches e i cs : ext e (set_catches e i cs). Proof. apply ext_tmod; intros x; repeat split; reflexivity. Qed.
+Lemma ext_set_timeouts e i x : ext e (set_timeouts e i x). Proof. apply ext_tmod; intros y; repeat split; reflexivity. Qed.
+Lemma ext_set_evproc e i : ext e (set_evproc e i). Proof. apply ext_tmod; intros y; repeat split; reflexivity. Qed.
+Lemma ext_add_hooks e i h : ext e (add_hooks e i h). Proof. apply ext_tmod; intros y; repeat split; reflexivity. Qed.
+Lemma ext_set_silent e i b : ext e (set_silent e i b). Proof. apply ext_tmod; intros y; repeat split; reflexivity. Qed.
+Lemma ext_set_data e i v : ext e (set_data e i v). Proof. apply ext_tmod; intros y; repeat split; reflexivity. Qed.
+Lemma ext_set_exposed e i v : ext e (set_exposed e i v). Proof. apply ext_tmod; intros y; repeat split; reflexivity. Qed.
 Lemma ext_upsert e i : ext e (upsert e i).
 Proof. unfold upsert. eapply ext_trans; [apply ext_with_rows | apply ext_with_prow]. Qed.
 
@@ -198,6 +200,8 @@ Lemma ext_prev e e' t : ext e e' -> t < ntasks e -> t_prev (tk e' t) = t_prev (t
 Lemma ext_st e e' t : ext e e' -> st e' t = st e t. Proof. intros [H _]. apply H. Qed.
 Lemma ext_err e e' t : ext e e' -> t_err (tk e' t) = t_err (tk e t). Proof. intros [H _]. apply H. Qed.
 Lemma ext_cd e e' t : ext e e' -> t_catch_done (tk e' t) = t_catch_done (tk e t). Proof. intros [H _]. apply H. Qed.
+Lemma ext_tmo e e' t : ext e e' -> t_tmo_done (tk e' t) = t_tmo_done (tk e t). Proof. intros [H _]. apply H. Qed.
+Lemma ext_start e e' t : ext e e' -> t_start (tk e' t) = t_start (tk e t). Proof. intros [H _]. apply H. Qed.
 
 (* ---- set_state ---- *)
 Lemma tk_set_state site e i s t :
